@@ -44,8 +44,8 @@ def run(F, R):
         fv = setplan[0]["bv"]
         R.count("bodies")
         wbi = setplan[0]["bi"]
-        eq_false = [(a, b) for (a, b, tr) in fv.bool_edges(lambda t: t[0] == "call" and t[1] == "std::cmp::PartialEq::eq" and "get_string" in lib.apath(t)) if not tr]
-        eq_true = [(a, b) for (a, b, tr) in fv.bool_edges(lambda t: t[0] == "call" and t[1] == "std::cmp::PartialEq::eq" and "get_string" in lib.apath(t)) if tr]
+        eq_false = lib.equal_edges(fv, lambda t: "get_string" in lib.apath(t), holds=False)
+        eq_true = lib.equal_edges(fv, lambda t: "get_string" in lib.apath(t))
         none_e = []
         for sb in sorted(fv.reach0):
             si = guards.switch_info(fv, sb)
@@ -214,21 +214,21 @@ def run(F, R):
             if vals and all(v in (0, 1) for v in vals) and 1 in vals and 0 in vals:
                 # the flag that is tested right before the report call
                 ft = rv.trace_local(l)
-                es = [(a, b) for (a, b, tr) in rv.bool_edges(lambda t: t == ft) if tr]
+                es = [(a, b) for (a, b, tr) in rv.bool_edges(lambda t: t == ft, whole=True) if tr]
                 if es and rv.dominated_by_edge(rbi, es):
                     flag = l
         if flag is None:
             R.inconclusive("C18-R4", "flag", "no boolean flag guards the report call")
         else:
             fterm = rv.trace_local(flag)
-            flag_true = [(a, b) for (a, b, tr) in rv.bool_edges(lambda t: t == fterm) if tr]
+            flag_true = [(a, b) for (a, b, tr) in rv.bool_edges(lambda t: t == fterm, whole=True) if tr]
             R.check("C18-R4", "report-guarded-by-flag", flag_true and rv.dominated_by_edge(rbi, flag_true), "report only while the flag is set", "the duration is reported without consulting the report-once flag", lib.loc(rv, rbi))
             sets_true = [bi for (bi, si, kind, x) in rv.defs[flag] if kind == "rv" and lib.term_const(c, rv._trace_rv(x, None, 0)) == 1]
             comps = rv.sccs()
             inloop = lambda b: any(b in L for L in comps)
             resets = [bi for (bi, si, kind, x) in rv.defs[flag] if kind == "rv" and lib.term_const(c, rv._trace_rv(x, None, 0)) == 0 and inloop(bi)]
             some_fin = [(a, b) for (a, b, tr) in rv.bool_edges(lambda t: t[0] == "call" and t[1].endswith("Option::<T>::is_some") and "update_finish_time" in lib.apath(t)) if tr]
-            eq_os = [(a, b) for (a, b, tr) in rv.bool_edges(lambda t: t[0] == "call" and t[1] == "std::cmp::PartialEq::eq" and "'target_version'" in lib.apath(t) and "os.version" in lib.apath(t)) if tr]
+            eq_os = lib.equal_edges(rv, lambda t: "'target_version'" in lib.apath(t) and "os.version" in lib.apath(t))
             R.check("C18-R4", "flag-set-only-if-finish-time", sets_true and some_fin and all(rv.dominated_by_edge(b, some_fin) for b in sets_true), "flag set only when a finish time is stored", "the flag is set without a stored finish time")
             R.check("C18-R4", "flag-set-only-on-target-version", sets_true and eq_os and all(rv.dominated_by_edge(b, eq_os) for b in sets_true), "flag set only when stored target version == config.os.version", "the flag is set although the running version is not the target version")
             okE = []
